@@ -94,20 +94,25 @@ func (drap *draPlugin) restoreAllClaims() {
 		log.InfraLogger.Errorf("Failed to list resource claims for state reconciliation: %v", err)
 		return
 	}
-	// The manager's set of allocated devices has no reference counts: restoring a claim that lost its assumed
-	// allocation removes its devices from the set, restoring a claim that regains its informer allocation adds them.
-	// A device that the last session took from a releasing pod's claim and assumed for a pipelined pod's claim is
-	// in both groups, so the removals have to come first - otherwise the device ends up free while the releasing
-	// pod still holds it.
+	// The manager's set of allocated devices follows unallocated <-> allocated transitions of single claims only: it
+	// has no reference counts and ignores a claim that goes from one allocation to another. The assumed state of a
+	// session breaks both assumptions - a device taken from a releasing pod's claim is assumed for the claim of the
+	// pod nominated instead, a moved victim's claim is assumed with the devices of its new node. Every claim that
+	// holds an allocation in the cache is therefore taken through 'unallocated' first (its cached devices leave the
+	// set), and only then are all claims restored (the devices the informer knows enter it).
 	for _, claim := range claims {
-		if claim.Status.Allocation != nil {
-			drap.manager.ResourceClaims().AssumedClaimRestore(claim.Namespace, claim.Name)
+		if claim.Status.Allocation == nil {
+			continue
+		}
+		unallocated := claim.DeepCopy()
+		unallocated.Status.Allocation = nil
+		unallocated.Status.ReservedFor = nil
+		if err := drap.manager.ResourceClaims().AssumeClaimAfterAPICall(unallocated); err != nil {
+			log.InfraLogger.V(6).Infof("Failed to reset resource claim %s/%s before restoring it: %v", claim.Namespace, claim.Name, err)
 		}
 	}
 	for _, claim := range claims {
-		if claim.Status.Allocation == nil {
-			drap.manager.ResourceClaims().AssumedClaimRestore(claim.Namespace, claim.Name)
-		}
+		drap.manager.ResourceClaims().AssumedClaimRestore(claim.Namespace, claim.Name)
 	}
 	log.InfraLogger.V(4).Infof("Restored %d resource claims to informer state", len(claims))
 }
